@@ -275,15 +275,21 @@ impl Disconnect {
             let properties_len_len = len_len(properties_len);
             length += properties_len_len + properties_len;
         } else {
-            length += 1;
+            length += 1; // Disconnect Reason Code
+            length += 1; // Property Length (0), which write() emits
         }
 
         length
     }
 
+    /// NormalDisconnection without properties is sent as the 2-byte short form
+    fn is_short_form(&self) -> bool {
+        self.reason_code == DisconnectReasonCode::NormalDisconnection && self.properties.is_none()
+    }
+
     pub fn size(&self) -> usize {
         let len = self.len();
-        if len == 2 {
+        if self.is_short_form() {
             return len;
         }
 
@@ -325,7 +331,7 @@ impl Disconnect {
 
         let length = self.len();
 
-        if length == 2 {
+        if self.is_short_form() {
             buffer.put_u8(0x00);
             return Ok(length);
         }
